@@ -3,7 +3,7 @@
 set -e
 cd /verif
 . scripts/env.sh
-for f in vmc vcoop vmapiter; do
+for f in vmc vcoop vmapiter vevents; do
   scripts/build.sh $f
 done
 echo setup done
